@@ -9,6 +9,8 @@ func init() {
 	vxRegister("H03aT", H03aT)
 	vxRegister("H02aQ", H02aQ)
 	vxRegister("H03f", H03f)
+	vxRegister("H03x", H03x)
+	vxRegister("H03fT", H03fT)
 	vxRegister("H02aT", H02aT)
 }
 
@@ -59,17 +61,39 @@ func h03a(edits int, ts []float64) {
 
 // H03f: nothing below the threshold is reported - the threshold is a symbolic float64 in (0,1]
 // and the input is a noisy copy (one substituted word) so that the confidence is strictly below 1.
-func H03f() {
+// H03x: one noisy input with a symbolic threshold, run with GOSX_FPCHECK=1 in the thorough tier.
+func H03x() {
 	t := vxFloat64(0.0001, 1.0)
-	world := []int{1}
+	c := vxBuildWorld(t, 1)
+	in := []byte("zzz\na b c zzz e f g h\nzzz d")
+	r := c.Match(in)
+	vxWellFormed(c, t, in, r, []int{1})
+	vxCover("end")
+}
+
+func H03f()  { h03f(false) }
+func H03fT() { h03f(true) }
+
+func h03f(thorough bool) {
+	t := vxFloat64(0.0001, 1.0)
+	worlds := [][]int{{1}, {0, 1}}
+	if thorough {
+		worlds = append(worlds, []int{2, 3}, []int{7})
+	}
+	world := worlds[vxChoice(len(worlds))]
 	c := vxBuildWorld(t, world...)
-	K := append([]string(nil), vxFamily[world[0]]...)
-	lost := K[3]
-	K[3] = ""
-	all, brk := vxEmbed(K, 1, 1, 3)
-	// the replaced word re-appears after the trailing block, so that the token-similarity
-	// pre-filter stays at 1.0 while the matched span has confidence 7/8
-	all, brk = append(all, lost), append(brk, false)
+	K := vxFamily[world[vxChoice(len(world))]]
+	edits := 1
+	if thorough {
+		edits = 2
+	}
+	words := vxNoisyCopy(K, []string{"a", "h"}, edits)
+	all, brk := vxEmbed(words, 1, 1, 3)
+	// every word of the document re-appears after the trailing block, so that the token-similarity
+	// pre-filter stays at 1.0 while the matched span has a confidence below 1
+	for _, w := range K {
+		all, brk = append(all, w), append(brk, false)
+	}
 	in := vxText(all, brk)
 	r := c.Match(in)
 	vxWellFormed(c, t, in, r, world)
